@@ -387,17 +387,26 @@ func findAll(env *sess.Env, st store.Store, now, before *model.Tree) string {
 		}
 		return ""
 	}
+	// list entries and containers (a list as a whole may be present-but-empty
+	// in one store and absent in another: not asked)
+	isNode := func(t *model.Tree, p model.Path) bool {
+		if p[len(p)-1].Key != nil {
+			return true
+		}
+		loc, ok := t.Resolve(p)
+		return ok && loc.Tree != nil
+	}
 	nowSet := map[string]bool{}
 	for _, p := range now.AllPaths() {
 		nowSet[p.String()] = true
-		if len(p) > 0 && p[len(p)-1].Key != nil {
+		if len(p) > 0 && isNode(now, p) {
 			if m := check(p, true); m != "" {
 				return m
 			}
 		}
 	}
 	for _, p := range before.AllPaths() {
-		if !nowSet[p.String()] && len(p) > 0 && p[len(p)-1].Key != nil {
+		if !nowSet[p.String()] && len(p) > 0 && isNode(before, p) {
 			// only when the parent still exists (otherwise the path is moot)
 			if _, ok := now.Resolve(p[:len(p)-1]); ok || len(p) == 1 {
 				if m := check(p, false); m != "" {
